@@ -87,6 +87,29 @@ Expected(ln, st) ==
     [] ln.op = "normalize" -> [kind |-> a.kind, dims |-> a.dims, val |-> a.val]
     [] OTHER -> [kind |-> "?", dims |-> <<>>, val |-> <<>>]
 
+\* the operands have the kinds and sizes the operation needs (otherwise the record is malformed: the reference
+\* value is not evaluated)
+WellTypedOp(ln, st) ==
+  LET a == st[ln.args[1]]
+      b == IF Len(ln.args) >= 2 THEN st[ln.args[2]] ELSE a IN
+  CASE ln.op \in {"add", "sub"} -> Len(ln.args) = 2 /\ a.kind = b.kind /\ a.dims = b.dims
+    [] ln.op \in {"scale", "neg", "conj", "same"} -> TRUE
+    [] ln.op = "normalize" -> a.kind = "mps"
+    [] ln.op = "apply" -> Len(ln.args) = 2 /\ a.kind = "mpo" /\ a.dims = b.dims
+    [] ln.op = "apply_sub" -> /\ Len(ln.args) = 2 /\ a.kind = "mpo"
+                              /\ \A k \in DOMAIN ln.sites : ln.sites[k] + 1 \in DOMAIN b.dims
+                              /\ Cardinality(Set(ln.sites)) = Len(ln.sites)
+                              /\ SubDims(b.dims, Pos(ln.sites)) = a.dims
+    [] ln.op = "ptranspose" -> a.kind = "mpo" /\ \A k \in DOMAIN ln.sysa : ln.sysa[k] + 1 \in DOMAIN a.dims
+    [] ln.op = "ptrace" -> /\ a.kind = "mps" /\ Len(ln.keep) >= 1
+                           /\ \A k \in DOMAIN ln.keep : ln.keep[k] + 1 \in DOMAIN a.dims
+                           /\ \A k \in 1..(Len(ln.keep) - 1) : ln.keep[k] < ln.keep[k + 1]
+    [] ln.op = "fill" -> /\ a.kind = "mpo"
+                         /\ \A k \in DOMAIN ln.sites : ln.sites[k] + 1 \in DOMAIN ln.fulldims
+                         /\ Cardinality(Set(ln.sites)) = Len(ln.sites)
+                         /\ SubDims(ln.fulldims, Pos(ln.sites)) = a.dims
+    [] OTHER -> FALSE
+
 ValueClause(ln) ==
   CASE ln.op \in {"add", "sub"}          -> "SumExact"
     [] ln.op \in {"scale", "neg"}        -> "ScaleExact"
@@ -108,25 +131,33 @@ ModelBondsOK(ln, st) ==
       b == IF Len(ln.args) >= 2 THEN st[ln.args[2]] ELSE a IN
   CASE ln.op \in {"add", "sub"} /\ Len(a.bonds) = Len(b.bonds) /\ Len(a.bonds) = Len(ln.bonds)
          -> ln.bonds = SeqAdd(a.bonds, b.bonds)
-    [] ln.op = "apply" /\ Len(a.bonds) = Len(b.bonds) /\ Len(a.bonds) = Len(ln.bonds)
+    [] ln.op = "apply" /\ ln.how \in {"apply", "dot"} /\ Len(a.bonds) = Len(b.bonds) /\ Len(a.bonds) = Len(ln.bonds)
          -> ln.bonds = SeqMul(a.bonds, b.bonds)
     [] ln.op \in {"scale", "neg", "conj"} -> ln.bonds = a.bonds
     [] OTHER -> TRUE
 
 OpClauses(ln, st) ==
   IF ~Known(st, ln.args) THEN << <<"UnknownOperand", FALSE>> >>
+  ELSE IF ~WellTypedOp(ln, st) THEN << <<"WellTyped", FALSE>> >>
   ELSE
   LET e == Expected(ln, st)
       ok == ln.exc = "" /\ ln.ongrid IN
   << <<"Returns", ln.exc = "">>,
      <<"OnGrid", ln.exc = "" => ln.ongrid>>,
      <<"ShapeExact", ok => ln.odims = e.dims /\ Len(ln.val) = Len2(e.kind, e.dims)>>,
-     <<ValueClause(ln), ok => ln.val = e.val>>,
+     \* (a reduced density operator that comes back as exactly the transpose of the reference is reported under
+     \*  its own name; any other wrong value under the plain clause)
+     <<ValueClause(ln), ok => (ln.val = e.val \/ (ln.op = "ptrace" /\ ln.val = Transpose(Mat(Size(e.dims), e.val)).data))>>,
+     <<"PartialTraceExact.Transposed", (ok /\ ln.op = "ptrace" /\ ln.val # e.val) =>
+                                          ln.val # Transpose(Mat(Size(e.dims), e.val)).data>>,
      <<"NormReturned", (ok /\ ln.op = "normalize") => ln.ret = Norm2(st[ln.args[1]].val)>>,
-     <<"NOTE:ModelBonds", ok => ModelBondsOK(ln, st)>> >>
+     <<"NOTE:ModelBonds", ok => ModelBondsOK(ln, st)>>,
+     \* S->C replays carry the prediction of C09_MPSAlgebra
+     <<"NOTE:AlgebraModel", (ok /\ Has(ln, "model_bonds")) => ln.bonds = ln.model_bonds>> >>
 
 OpStore(ln, st) ==
   IF ~Known(st, ln.args) \/ ln.out = "" THEN st
+  ELSE IF ~WellTypedOp(ln, st) THEN st
   ELSE LET e == Expected(ln, st)
            good == ln.exc = "" /\ ln.ongrid /\ Len(ln.val) = Len2(e.kind, e.dims) IN
        Put(st, ln.out, Obj(e.kind, e.dims, IF good THEN ln.val ELSE e.val, IF ln.exc = "" THEN ln.bonds ELSE <<>>))
@@ -146,6 +177,20 @@ QueryValue(ln, st) ==
     [] ln.q = "amplitude" -> a.val[Flat(ln.digits, a.dims) + 1]
     [] OTHER -> <<0, 0>>
 
+WellTypedQuery(ln, st) ==
+  LET a == st[ln.args[1]]
+      b == IF Len(ln.args) >= 2 THEN st[ln.args[2]] ELSE a
+      c == IF Len(ln.args) >= 3 THEN st[ln.args[3]] ELSE a
+      d == IF Len(ln.args) >= 4 THEN st[ln.args[4]] ELSE a IN
+  CASE ln.q \in {"overlap", "hdot"} -> Len(ln.args) = 2 /\ a.kind = b.kind /\ a.dims = b.dims
+    [] ln.q = "norm2" -> TRUE
+    [] ln.q = "expec" -> Len(ln.args) = 3 /\ a.kind = "mps" /\ b.kind = "mpo" /\ c.kind = "mps" /\ a.dims = b.dims /\ b.dims = c.dims
+    [] ln.q = "expec2" -> /\ Len(ln.args) = 4 /\ a.kind = "mps" /\ b.kind = "mpo" /\ c.kind = "mpo" /\ d.kind = "mps"
+                          /\ a.dims = b.dims /\ b.dims = c.dims /\ c.dims = d.dims
+    [] ln.q = "trace" -> a.kind = "mpo"
+    [] ln.q = "amplitude" -> a.kind = "mps" /\ Len(ln.digits) = Len(a.dims) /\ \A k \in DOMAIN a.dims : ln.digits[k] \in 0..(a.dims[k] - 1)
+    [] OTHER -> FALSE
+
 QueryClause(ln) ==
   CASE ln.q \in {"overlap", "hdot"}  -> "OverlapExact"
     [] ln.q = "norm2"                -> "NormExact"
@@ -156,10 +201,12 @@ QueryClause(ln) ==
 
 QueryClauses(ln, st) ==
   IF ~Known(st, ln.args) THEN << <<"UnknownOperand", FALSE>> >>
+  ELSE IF ~WellTypedQuery(ln, st) THEN << <<"WellTyped", FALSE>> >>
   ELSE
   << <<"Returns", ln.exc = "">>,
      <<"OnGrid", ln.exc = "" => ln.ongrid>>,
-     <<QueryClause(ln), (ln.exc = "" /\ ln.ongrid) => ln.res = QueryValue(ln, st)>> >>
+     <<QueryClause(ln), (ln.exc = "" /\ ln.ongrid) => ln.res = QueryValue(ln, st)>>,
+     <<"NOTE:AlgebraModel", (ln.exc = "" /\ ln.ongrid /\ Has(ln, "model_res")) => ln.res = ln.model_res>> >>
 
 (* ----------------------------- compression ------------------------------ *)
 CompressClauses(ln, st) ==
@@ -179,7 +226,13 @@ CompressClauses(ln, st) ==
                                 /\ Len(ln.bonds) = L - 1>>,
      <<"Untruncated", (ok /\ nothing) => (ln.same = 0 /\ (ln.ongrid => ln.val = a.val))>>,
      <<"CentreWherePromised", (ok /\ pc > 0) => CanonicalAround(pc, ln.liso, ln.riso)>>,
-     <<"ErrorBound", (ok /\ ln.method \in Canonical) => ln.err2q <= ln.disc2q>> >>
+     <<"ErrorBound", (ok /\ ln.method \in Canonical /\ ln.form # "flat") => ln.err2q <= ln.disc2q>>,
+     \* S->C replays carry the prediction of C09_Compress: final bonds, centre, losslessness
+     <<"NOTE:SweepModel", (ok /\ Has(ln, "model")) =>
+           /\ ln.bonds = ln.model.bonds
+           /\ (ln.model.centre > 0 => CanonicalAround(ln.model.centre, ln.liso, ln.riso))
+           /\ ((~ln.model.lossy /\ ln.cutoff0) => ln.same = 0)>>,
+     <<"NOTE:SweepModelRejects", (~ok /\ Has(ln, "model")) => ln.model.rejected>> >>
 
 CompressStore(ln, st) ==
   IF ~Known(st, <<ln.src>>) \/ ln.out = "" \/ ln.exc # "" THEN st
